@@ -4,7 +4,8 @@ it and passes without) and runs the checks against it; writes seeded/RESULTS.jso
 usage: tools/run_seeded.py [id ...]"""
 import glob, json, os, re, subprocess, sys, time
 here = os.path.dirname(os.path.dirname(os.path.abspath(__file__)))
-EXTRA = {'C03-B': ['C17'], 'C05-B': ['C02', 'C17'], 'C16-B': ['C19'], 'C11-B': ['C13'], 'C02-B': ['C15']}
+EXTRA = {'C03-B': ['C17'], 'C05-B': ['C02', 'C17'], 'C16-B': ['C19'], 'C11-B': ['C13'], 'C02-B': ['C15'],
+         'C11-C': ['C17'], 'C10-C': ['C13', 'C18'], 'C03-C': ['C18'], 'C01-D': ['C05', 'C17']}
 ids = sys.argv[1:] or sorted(os.path.basename(d) for d in glob.glob(os.path.join(here, 'seeded', 'C*-*')))
 out = os.path.join(here, 'seeded', 'RESULTS.json')
 res = json.load(open(out)) if os.path.exists(out) else {}
